@@ -18,7 +18,8 @@ from .utils import EventHandler, to_str
 
 # Override defaults for msgpack packb/unpackb
 packb = functools.partial(msgpack.packb, use_bin_type=True, unicode_errors="surrogateescape")
-unpackb = functools.partial(msgpack.unpackb, raw=False, unicode_errors="surrogateescape")
+# (strict_map_key: what dictlist / dynamic fields hold is not restricted to text keys, and packb() writes any key)
+unpackb = functools.partial(msgpack.unpackb, raw=False, unicode_errors="surrogateescape", strict_map_key=False)
 
 RECORD_PACK_EXT_TYPE = 0xE
 
